@@ -29,6 +29,7 @@ CONSTANTS Peers,       \* e.g. {"p1", "p2"}
           MaxPerPeer,  \* connection ids per peer
           MaxOverlap,  \* connections per peer the manager admits at once (2 = in scope)
           MaxOpens, MaxInb, MaxFc, MaxExp,   \* bounds on open_substream / inbound / force_close / expiry
+          Phases,      \* model the two phases of a connection-side open (stream slot, negotiation) separately
           MaxDropProto,\* protocols the user may drop
           MaxFull,     \* bound on substream results handed to a protocol whose inbox is full
           PCap,        \* capacity of a protocol inbox (DEFAULT_CHANNEL_SIZE = 4096)
@@ -41,7 +42,8 @@ CONSTANTS Peers,       \* e.g. {"p1", "p2"}
 VARIABLES cst,     \* c -> "live" | "closing" | "dead"   (DOMAIN = ids handed out)
           cpeer,   \* c -> peer
           cmdq,    \* c -> sequence of commands  [k |-> "open", q, id] | [k |-> "force"]
-          pend,    \* c -> set of [q, id]: requests read by the connection, not answered
+          pend,    \* c -> set of [q, id, ph]: requests read by the connection, not answered;
+                   \*      ph = "slot": waiting for a stream of the multiplexer, "neg": negotiating
           chan,    \* q -> inbox (sequence of inner events)
           conns,   \* q -> p -> [pri, priA, sec, secA]   (pri = 0: no context)
           track,   \* q -> set of <<p, c>> keys of KeepAliveTracker.last_activity
@@ -292,7 +294,7 @@ Cmd(c) ==
           LET x == Head(cmdq[c]) IN
           /\ cmdq' = [cmdq EXCEPT ![c] = Tail(@)]
           /\ IF x.k = "open"
-               THEN pend' = [pend EXCEPT ![c] = @ \cup {[q |-> x.q, id |-> x.id]}]
+               THEN pend' = [pend EXCEPT ![c] = @ \cup {[q |-> x.q, id |-> x.id, ph |-> IF Phases THEN "slot" ELSE "neg"]}]
                     /\ Handle([a |-> "cmd", c |-> c], [k |-> "open", q |-> x.q, id |-> x.id, cc |-> c], FALSE)
                ELSE UNCHANGED pend /\ Handle([a |-> "cmd", c |-> c], [k |-> "force"], FALSE)
      ELSE /\ Strong(c) = 0       \* every sender is gone: the stream ends, the connection would close
@@ -341,9 +343,28 @@ Deliver(c) ==
                /\ chan' = [chan EXCEPT ![q] = Append(@, ev)]
                /\ Handle(stim, [k |-> "ok"], FALSE)
 
-\* report_substream_open / report_substream_open_failure (negotiation finished, failed or timed out)
+\* the multiplexer handed out a stream for request x (yamux: fewer than 256 unacknowledged outbound
+\* streams; quic: below the peer's stream limit): negotiation starts
+Slot(c, x) ==
+  /\ cst[c] = "live" /\ ~Busy(c) /\ x \in pend[c] /\ x.ph = "slot"
+  /\ pend' = [pend EXCEPT ![c] = (@ \ {x}) \cup {[x EXCEPT !.ph = "neg"]}]
+  /\ UNCHANGED <<cst, cpeer, cmdq, chan, conns, track, nextId, dead, mgr, cnt, blk, deadq>>
+  /\ Handle([a |-> "slot", c |-> c, id |-> x.id], [k |-> "ok"], FALSE)
+
+\* seeded defect "slot_silent": the open timeout firing while the request still waits for its stream
+\* reports nothing (the timeout arm lost the protocol name and the substream id)
+SilentTimeout(c, x) ==
+  /\ Bug = "slot_silent" /\ cst[c] = "live" /\ ~Busy(c) /\ x \in pend[c] /\ x.ph = "slot"
+  /\ pend' = [pend EXCEPT ![c] = @ \ {x}]
+  /\ UNCHANGED <<cst, cpeer, cmdq, chan, conns, track, nextId, dead, mgr, cnt, blk, deadq>>
+  /\ Handle([a |-> "reply", c |-> c, id |-> x.id, ok |-> FALSE, full |-> FALSE, q |-> x.q], [k |-> "silent"], FALSE)
+
+\* report_substream_open / report_substream_open_failure: the open succeeded (only after negotiation),
+\* failed, or timed out - in either phase, always with the id of the request
 Reply(c, x, ok, full) ==
   /\ cst[c] = "live" /\ ~Busy(c) /\ x \in pend[c]
+  /\ (ok => x.ph = "neg")
+  /\ ~(Bug = "slot_silent" /\ ~ok /\ x.ph = "slot")
   /\ pend' = [pend EXCEPT ![c] = @ \ {x}]
   /\ UNCHANGED <<cst, cpeer, cmdq, conns, track, nextId, dead, mgr, deadq>>
   /\ Send(c, x.q, IF ok THEN [k |-> "opened", p |-> cpeer[c], c |-> c, q |-> x.q, dirn |-> "out", id |-> x.id]
@@ -367,6 +388,7 @@ Normal ==
   \/ \E c \in DOMAIN cst : \E q \in Svc : Close(c, q) \/ Inbound(c, q, FALSE) \/ Inbound(c, q, TRUE)
   \/ \E c \in DOMAIN cst : \E x \in pend[c] : \E ok, full \in BOOLEAN : Reply(c, x, ok, full)
   \/ \E c \in DOMAIN cst : Deliver(c)
+  \/ \E c \in DOMAIN cst : \E x \in pend[c] : Slot(c, x) \/ SilentTimeout(c, x)
   \/ \E q \in Svc : Poll(q)
   \/ \E q \in Svc : \E p \in Peers : Open(q, p) \/ FClose(q, p)
   \/ \E q \in Svc : \E k \in track[q] : Expire(q, k[1], k[2])
